@@ -248,7 +248,10 @@ def check_bracket_ast(rep):
     d = fns[0]
     for comm in (False, True):
         M = mach.Machine(funcs={"ad": mach.PyFunc(lambda M_, v: Term("ad(%s)" % mach.show_val(v[0]))), "Zero": mach.PyFunc(lambda M_, v: Term("0")),
-                                "method:Zero": mach.PyFunc(lambda M_, o, a, t, env: Term("0"), lazy=True)})
+                                "method:Zero": mach.PyFunc(lambda M_, o, a, t, env: Term("0"), lazy=True),
+                                "method:noalias": mach.PyFunc(lambda M_, o, a, t, env: o, lazy=True),
+                                "method:setZero": mach.PyFunc(lambda M_, o, a, t, env: o.set(Term("0")), lazy=True),
+                                "method:eval": mach.PyFunc(lambda M_, o, a, t, env: M_.rv(o), lazy=True)})
         M.global_env = mach.Env()
         M.global_env.bind("IsCommutative", mach.Cell(comm))
         try:
